@@ -5,6 +5,7 @@ import ast
 
 from ..algebra import NC, Poly, ToNC
 from ..report import AnalysisError
+from .. import cfg as C
 from ..amatch import AM
 from ..flow import expand
 from ..srcmodel import norm
@@ -75,6 +76,18 @@ def rule_a(ctx):
                         b = v
         return A, b
 
+    # the callable interface is find_balance followed by the class's own apply_balance (dynamic dispatch: the affine classes add the translation there)
+    for k in m.mod(MOD).classes.values():
+        c = k.methods.get("__call__")
+        if c is None:
+            continue
+        ctx.instance(R)
+        amc = AM(c)
+        pi, ps, pd = c.params[1:4]
+        amc.let("out", f"self.apply_balance({pi})")
+        stmts = [x for x in c.node.body if not (isinstance(x, ast.Expr) and isinstance(x.value, ast.Constant))]
+        ctx.ob(R, c.qname, "__call__ = find_balance(src, dst); return self.apply_balance(img)", amc.eq_block(stmts, [f"self.find_balance({ps}, {pd})", "return out"]),
+               str([norm(x)[:70] for x in stmts]), c.node)
     # statements after the stage fit
     body = f.node.body
     idx = max(i for i, s in enumerate(body) if any(isinstance(c, ast.Call) and norm(c.func) == f"{stage}.find_balance" for c in ast.walk(s)))
@@ -141,6 +154,21 @@ def rule_b(ctx, side):
         opt_txt = norm(expand(f.node, call))
         st = {self_attr(s_.targets[0]): norm(expand(f.node, s_.value)).replace(opt_txt, "OPT") for s_ in f.node.body if isinstance(s_, ast.Assign) and self_attr(s_.targets[0])}
         ctx.ob(R, f.qname, "result is unpacked with the same layout", st == sp["store"], str(st)[:200], f.node)
+        # every normal return of find_balance has stored the fit (must-write over the CFG): an early return leaves the previous balance in place
+        g = C.CFG(f.node)
+
+        def tr(nd, st_in):
+            out = set(st_in)
+            if nd.stmt is not None and isinstance(nd.stmt, (ast.Assign, ast.AugAssign)) and nd.kind == "stmt":
+                for t_ in (nd.stmt.targets if isinstance(nd.stmt, ast.Assign) else [nd.stmt.target]):
+                    a_ = self_attr(t_)
+                    if a_:
+                        out.add(a_)
+            return frozenset(out)
+        IN, _ = C.solve_forward(g, frozenset(), tr, lambda a_, b_: a_ & b_, exc_transfer=lambda nd, si, so: si)
+        at_exit = IN.get(g.exit.id, frozenset())
+        ctx.ob(R, f.qname, "every return of find_balance has stored the fitted balance", set(sp["store"]) <= set(at_exit),
+               f"attributes written on every path to a return: {sorted(at_exit)}; needed {sorted(sp['store'])} -- a re-fit that takes the early exit keeps the previous balance", f.node)
     ctx.floor(R, 3)
 
 
